@@ -16,10 +16,15 @@ CLAIMED = {
              'binary on every run: ~1900 single-fault runs (every call index x errno/short of 18 scenarios incl. stdin delivery) under an '
              'LD_PRELOAD shim are checked call by call against Model.mainP (same calls, possible results, same final directories and exit status) '
              'and judged by a tree oracle (each message exactly once intact, no stray, exit 0 only at the final place, failure reported).',
-        note='Trusted: Lean kernel; the abstract file system (applyOk/predict) as model of POSIX; the shim; stdio internals (faults injected at '
-             'fflush/fclose level). The exactly-once / no-stray / reported clauses under single faults are decided by the exhaustive sweep on the '
-             'real binary plus conformance, not by a theorem yet. Known findings F17a-e: failures of close/closedir/fclose(config)/fstatat(mtime)/'
-             'spool cleanup are not reported (exit 0).',
+        note='Also machine-checked for plans with at most one fault (C01_single_fault_exactly_once/_unique/_no_stray/_discard, '
+             'C01_exit0_final) and for every plan (C01_fault_reported): after executing an action list the message is bound exactly once '
+             'to a complete stage, every other entry and file is untouched, nothing this run created remains except the message itself, '
+             'a failing call outside the explicit ignored sites (close, closedir, the fstatat of maildir_move; EEXIST/EXDEV are handled) '
+             'makes the result an error, and no error means the final place and content. These are stated for matchesExec of one '
+             'message; the lift to the whole run is C04_frame/C04_isolation_calls (calls of one message only touch its own name and names '
+             'it created) plus the sweep on the real binary. Trusted: Lean kernel; the abstract file system (applyOk/predict) as model of '
+             'POSIX; the shim; stdio internals (faults injected at fflush/fclose level and through RLIMIT_FSIZE). Known findings F17a-e: '
+             'failures of close/closedir/fclose(config)/fstatat(mtime)/spool cleanup are not reported (exit 0).',
         technique='Lean 4 proof (invariant over all fault plans of a program-over-calls model) + trace conformance of the real binary + fault sweep'),
     'C02': dict(
         text='Machine-checked: for every action list and EVERY fault plan, after EVERY call (= every process-kill point) some entry is bound to a '
@@ -56,8 +61,12 @@ CLAIMED = {
              'gives "0 only if stored durably". Tied to the real binary: 40 (thorough 1500) populations with defective messages of 7 kinds '
              '(exit 1 iff one is present, good messages end where the error-free run puts them, defective ones untouched, second maildir still '
              'processed, conformance with Model.mainP) and single-fault sweeps of 5 stdin scenarios judged by the MDA contract (75/1/0, spool removed).',
-        note='Trusted: as C01. Error isolation across messages is decided by the populations on the real binary + conformance, not by a theorem. '
-             'Known finding F18 (maildir path within 4 bytes of PATH_MAX ends the run through errc) is not exercised by this check.',
+        note='Also machine-checked for arbitrary call results: the calls issued while one message is processed mutate only that message\'s own '
+             'name and names this run created (C04_frame, C04_isolation_calls, C04_isolation_calls_main); a message whose processing '
+             'fails does not stop the walk and the error flag is sticky (C04_error_isolated, C04_error_flag_inert); the error flag of the '
+             'whole run is true IFF one of the enumerated causes occurred (C04_error_iff_partial: configuration, fopen, spool, path join, '
+             'opendir, readdir, or a message whose parse/evaluation/interpolation/action failed: C04_message_error_iff). Trusted: as C01. '
+             'F18 (over-long maildir path ended the run) is repaired (adcfac2).',
         technique='Lean 4 proof (status table, config error) + populations and stdin fault sweeps on the real binary with trace conformance'),
     'C05': dict(
         text='Machine-checked: with -d in maildir mode Model.mainP issues, for every configuration, population and fault plan, no mutating call '
@@ -100,9 +109,16 @@ CLAIMED = {
              'hostile seeds, their mutants and the inputs a coverage-guided search (libFuzzer) adds; the results of those same executions '
              'are compared with the model; the real ASan binary runs every input in maildir and stdin mode with a time limit, exec/command '
              'rules included, next to a control message that must still be handled.',
-        note='Trusted/not modelled: libks buffer/vector, malloc/realloc lifetimes (the repaired use-after-free of parseattachments is a '
-             'lifetime error no list model shows: it is caught by ASan on nested multiparts with >= 16 parts, which are in the seed corpus), '
-             'glibc regex, stdio. Inputs up to 64 KiB, C locale, fixed configuration battery (harness/fuzz/battery.conf).',
+        note='SINCE ADDED - an index-level (L0) model (Model/L0): the same C functions over a byte array with its terminating NUL where every '
+             'read and write goes through a bounds-checked accessor and pointers into the attachment vector carry its reallocation '
+             'generation; machine-checked for EVERY NUL-terminated buffer (13 theorems C07_L0_*): b64_pton/base64_decode/'
+             'quoted_printable_decode/rfc2047_decode, skipseparator/findheader (with its in-place NUL writes)/the header loop/'
+             'unfoldheader/searchheader, skipline/parseboundary/findboundary/parseattachments/message_get_attachments, pathslice/'
+             'isbackref/ismacro never read or write out of bounds and never use a stale vector pointer (the pinned use-after-free is '
+             'exhibited as Fault.uaf), and the decoders/unfoldheader/skipseparator/skipline/strcasecmp refine the list-level model '
+             '(functional refinement of the remaining ones is exercised by the l0 stage on every run, proof in progress). Still '
+             'trusted/not modelled: malloc itself, glibc regex, stdio, size_t overflow in vector_reserve1, the libks output buffer. '
+             'Inputs up to 64 KiB, C locale, fixed configuration battery (harness/fuzz/battery.conf).',
         technique='Lean 4 proof of the bounds/progress facts + differential execution under ASan/UBSan on hostile inputs + coverage-guided '
                   'search (libFuzzer) as the failing-input search'),
     'C08': dict(
@@ -119,14 +135,28 @@ CLAIMED = {
         technique='Lean 4 proof (refinement to a line-based field list) + differential execution + spec predicate on real output'),
     'C09': dict(
         category='proof',
-        text='PARTIAL. Machine-checked flag algebra for every flag set and file name: flags are read only from the text after the last colon '
-             'of the file NAME (C09_flags_parse), written back as :2, + upper case ascending + lower case ascending, each once, within the '
-             '64-byte buffer (C09_flags_str), write-then-read is the identity (C09_flags_roundtrip), new->cur gains S, cur->new loses S, all '
-             'other flags preserved (C09_S_adjust). Tied to the working tree by differential execution of message_flags_parse/str and '
-             'msgflags, and of message_parse + evaluator on maildirs whose path contains ":".',
-        note='NOT yet decided by this check: destination of move/flag/flags sequences (known findings F12, F20), freshness of generated names '
-             'under collisions, preservation of the modification time - these need the process-level world model (in progress).',
-        technique='Lean 4 proof (bit-set algebra) + differential execution'),
+        text='Machine-checked: flag algebra for every flag set and file name (C09_flags_parse: flags come only from the text after the last '
+             'colon of the file NAME; C09_flags_str: written back as :2, + upper case ascending + lower case ascending, each once, within '
+             'the 64-byte buffer; C09_flags_roundtrip; C09_S_adjust: new->cur gains S, cur->new loses S, all else preserved); destinations: '
+             'for every original path and every sequence of move/flag/flags actions satisfying the decidable predicate Spec.destOK the '
+             'message ends in (maildir of the last move, else its own)/(subdirectory of the last flag, else its own), through '
+             'matches_append/matches_merge/pathslice and through eval (C09_destination_partial, C09_destination_eval; destOK is the exact '
+             'set on which the pinned code is right: C09_destOK_exact_upto_6; outside it: known finding F12, C09_destination_false); '
+             'world level, for EVERY fault plan: a successful maildir_move leaves the destination entry with the source\'s modification '
+             'time, by rename or by utimensat after a cross-device copy (C09_mtime; lost only when the fstatat failed: '
+             'C09_mtime_lost_when_stat_fails = F17d), maildir_genname returns a name that was free, bound to a new empty file, after at '
+             'most (candidates present + 1) attempts, and NO plan makes it or maildir_move replace or change a pre-existing entry '
+             '(C09_fresh_name, C09_fresh_name_never_replaces, C09_move_never_replaces). Tied to the working tree: differential '
+             'execution of the flag functions; the real binary under the shim on move / cross-device move / flag / flags / move+flag '
+             'scenarios and destinations pre-populated with the next candidate names, judged on the real tree (place, fresh name, flags, '
+             'content, mtime in ns, decoys untouched) and followed call by call through Model.mainP (fstatat value, utimensat arguments, '
+             'EEXIST retries); all 310 (thorough 3410) sequences of <= 3 (4) move/flag/flags actions from new and cur against Spec.dest.',
+        note='Known finding F12 (destination of an unmerged flag/flags/move entry computed from the original path) is identified by the '
+             'sequence lying outside Spec.destOK AND the result being what the transcription computes. Repaired: F6 (401b480, flags parsed '
+             'from the whole path) and 7589fcb (S not kept in sync after move+rewrite). Maildir names with special characters at process '
+             'level: see evidence (added by the strengthening after seeded change C09-n4).',
+        technique='Lean 4 proof (bit-set algebra; merge semantics of the match list; world-level invariants for all fault plans) + '
+                  'differential execution + real binary under the shim with trace conformance'),
     'C10': dict(
         text='Machine-checked: searchheader on every table sorted by the case-insensitive comparator returns the first index and length of the '
              'maximal run of equal names (C10_binary_search, all sizes and duplicate arrangements); unfolding yields one logical line '
@@ -134,9 +164,12 @@ CLAIMED = {
              'the case-insensitively equal occurrences in file order (C10_lookup, using C16_rfc2047); regcomp base flags from the regenerated '
              'table (C10_regflags). Tied to the working tree by differential execution of the real message_parse/message_get_header/'
              'unfoldheader against model and line-based specification.',
-        note='Trusted: Lean kernel, Spec/Message.lean, generators. POSIX regexec itself is the platform library (outside the model); the loop of '
-             'expr_eval_header over names/values and the ICASE flag are covered by the evaluator correspondence (C03 machinery), not by a '
-             'theorem yet.',
+        note='Also machine-checked, for EVERY regex engine (arbitrary function): the header condition as a whole (C10_header_cond, _iff, _other): '
+             'the candidates are the decoded logical values of the occurrences of the listed names in names order then file order '
+             '(C10_header_cands_mem); the first candidate the engine does not answer "no match" for decides - match with exactly one entry '
+             'appended carrying its captures, or error - so an earlier error hides a later match and vice versa; no candidate: no match and '
+             'the state is unchanged; `date header` uses the first Date occurrence only (C10_date_header). Trusted: Lean kernel, '
+             'Spec/Message.lean, generators. POSIX regexec itself is the platform library (outside the model).',
         technique='Lean 4 proof (binary search invariant, stable sort, refinement to line-based reading) + differential execution'),
     'C11': dict(
         text='Machine-checked: for every entity whose multipart boundaries contain no newline (the RFC 2046 grammar; hypothesis BoundaryOk, '
@@ -146,9 +179,14 @@ CLAIMED = {
              'shorter list, and message_get_body is the body decoded by the part\'s own transfer encoding with text/plain preferred over '
              'text/html for multipart/alternative (C11_body). Tied to the working tree by differential execution of the real '
              'message_get_attachments/message_get_body (ASan harness) against model and specification on generated MIME trees.',
-        note='Trusted: Lean kernel, Spec/Mime.lean, the correspondence generators; entity/header reading is shared between model and spec (its '
-             'correctness is C08/C10); how attachment conditions/blocks quantify over parts is transcribed in Model/Eval.lean and compared exactly with the real '
-             'evaluator, with an independent oracle for error propagation; no theorem about it yet.',
+        note='Also machine-checked: `attachment c` evaluates c on the parts in order and the first part that is not "no match" decides (match iff '
+             'some part matches and no earlier part errors), `attachment { ... }` evaluates its block on EVERY part unless one errors and '
+             'matches iff some part matched, a malformed multipart is an error and never a match (C11_attachment_cond, '
+             'C11_attachment_block, _meaning, _mime); what exec receives on stdin, for arbitrary call results (C11_exec_stdin, '
+             '_delivered_iff, _failure): with `stdin body` exactly the decoded body written completely (short writes continued), inside an '
+             'attachment block the re-serialised part, otherwise a duplicate of the message descriptor, always rewound; any failing call '
+             'means no descriptor and the temporary one closed. Trusted: Lean kernel, Spec/Mime.lean, the generators; entity/header '
+             'reading is shared between model and spec (its correctness is C08/C10).',
         technique='Lean 4 proof of model = line-based MIME specification + differential execution model/implementation'),
     'C12': dict(
         text='Machine-checked: for EVERY match list, macro table and template of the documented syntax the Lean transcription of '
@@ -159,9 +197,15 @@ CLAIMED = {
              'running the real parser + expr_eval + matches_interpolate on generated rules/messages whose texts look like templates: exact '
              'comparison with the model, and every interpolated move destination / exec argument / label judged by Spec.interp on the captures '
              'the implementation itself recorded.',
-        note='Trusted: Lean kernel, Spec/Interp.lean, generators, platform regexec. Templates with `\\N.` not followed by a digit are outside '
-             'the specification (strtoul quirk, recorded in DESIGN.md). Parse-time macro expansion (expandmacros, -D) is not modelled yet. Known '
-             'finding F20: `move "...\\1" flag new` leaves the template uninterpolated (listed under C09).',
+        note='Also machine-checked: a capture is exactly subject[so, eo) of the group, case-folded by the l/u flag, empty for an unset group, '
+             'for every regex oracle (C12_captures_exact, C12_capture_is_slice, C12_capture_end_to_end); back-references never see captures '
+             'of another rule (C12_backref_rule_local, _ignores_other_rules, _needs_sentinel); `lit1 \\1 lit2` yields lit1 ++ capture ++ '
+             'lit2 for EVERY captured text incl. `\\2`, `${path}`, `${` (C12_single_pass, no hypothesis on the capture); missing group / '
+             'unknown macro / unterminated macro are errors of the whole list (C12_failed_template_fails_all) and then the run issues no '
+             'mutating call for that message under arbitrary call results (C12_error_no_effect). Trusted: Lean kernel, Spec/Interp.lean, '
+             'generators, platform regexec. Templates with `\\N.` not followed by a digit are outside the specification (strtoul quirk, '
+             'recorded in DESIGN.md). Parse-time macro expansion is part of the parser model (Model/Conf.lean, tied to the real parser by '
+             'the C14 correspondence); its theorems are in progress.',
         technique='Lean 4 proof (C loop = token-wise substitution) + differential execution + spec evaluated on real captures'),
     'C13': dict(
         text='PARTIAL. Machine-checked for arbitrary call results (runOracle): the argument vector is one interpolated string per configured '
@@ -172,9 +216,12 @@ CLAIMED = {
              'attachment blocks, in stdin mode, exit statuses and signals; a helper program records argv bytes, stdin bytes, inherited '
              'descriptors and the stdin target, compared with the configured vector and the current message / decoded body / part; '
              'call-by-call conformance with Model.mainP.',
-        note='NOT proved: "the child inherits no descriptor other than 0, 1, 2" and "stdin reads from offset 0" - close-on-exec flags and file '
-             'offsets are not in the abstract file system; they are decided by the helper records on the real binary only (the seeded change that '
-             'drops O_CLOEXEC is detected that way). fork/execvp/dup2 in the child are the kernel\'s.',
+        note='Also machine-checked: argv = strings.map (cstr . interpolate), same length and order, no splitting of an argument containing '
+             'blanks/quotes/globs (C13_argv_exact, _length_order, _no_splitting); the stdin content is C11_exec_stdin. Close-on-exec: in '
+             'the model every descriptor-creating call IS its close-on-exec form, so the obligation sits in the trace canonicaliser '
+             '(tools/world.py maps only openat/fcntl/mkostemp with exactly the modelled flags; anything else stops the conformance) and '
+             'in the helper\'s record of inherited descriptors on the real binary (the seeded changes that drop O_CLOEXEC or install the '
+             'descriptor with dup2 are detected that way). fork/execvp/dup2 in the child are the kernel\'s.',
         technique='Lean 4 proof (program-over-calls model, arbitrary results) + helper-recorded exec observations on the real binary'),
     'C14': dict(
         text='Machine-checked: the lexer model (Model/Lex.lean, a transcription of yylex1/yypeek) returns a suffix of its input and every '
@@ -210,8 +257,12 @@ CLAIMED = {
              'at 2^32 (C15_overflow). Tied to the working tree by differential execution of tzoff/time_parse under 14 TZ settings over '
              'instants 1970-2037 incl. DST switches, and of date conditions with thresholds at age-1/age/age+1 and every unit prefix through '
              'the real parser and evaluator.',
-        note='Trusted: Lean kernel, Spec/Time.lean, strptime and the zone-NAME lookup (platform, FFI on the model side), generators. '
-             'modified/created/access (stat timestamps) are exercised at process level only.',
+        note='Also machine-checked: which instant each field uses and that the comparison is strict over Int (C15_fields, C15_fields_source, '
+             'C15_fields_strict). The binding modified/created/access -> st_mtim/st_ctim/st_atim is exercised differentially: the harness '
+             'gives the message file an old mtime and reports the stat times the evaluator saw, the model gets them as its oracle, the '
+             'oracle of the check recomputes the expected verdict from them (a swap of mtime with another field is detected; atime and '
+             'ctime are both "now" on this file system). Trusted: Lean kernel, Spec/Time.lean, strptime and the zone-NAME lookup '
+             '(platform, FFI on the model side), generators.',
         technique='Lean 4 proof (arithmetic, finite table) + differential execution with pinned clock'),
     'C16': dict(
         text='Machine-checked: the Lean transcription of b64_pton/base64_decode, quoted_printable_decode(_buffer) and rfc2047_decode '
@@ -234,10 +285,17 @@ CLAIMED.update({
              'file nor removes the winner\'s copy; a party whose rename finds the source gone reports an error (C17_loser_reports_error). Tied '
              'to the real binaries: 48 ordered pairs of parties x every schedule in which the second runs to completion before call k of the '
              'first (~2100 schedules): every message exactly once, intact, no stray or partial file.',
-        note='The exactly-once clause does NOT hold on the pinned code: known findings F14 (a rewritten/cross-device copy stands next to its '
-             'original in new/cur and a second party processes both: duplicates) and F13 (placeholders are created in new/cur and can be taken '
-             'for messages) are confirmed on every run and classified by history; any other loss/duplicate/stray is a violation. Real kernel '
-             'interleavings inside a system call are not explored.',
+        note='Also machine-checked on an explicit model of several parties interleaving call by call on ONE abstract file system '
+             '(Model/Parties.lean: any number of mdsort parties and an external client, any schedule): at most one party removes a given '
+             'source name and every later attempt gets ENOENT (C17_single_winner), the loser reports an error '
+             '(C17_loser_in_schedule_reports_error), no party renames onto or removes a foreign name '
+             '(C17_parties_never_touch_foreign), and under isolation (no party sees another\'s in-flight file) rename-based parties plus '
+             'the client leave every file bound exactly once with its content and nothing stray, at quiescence of ANY schedule '
+             '(C17_exactly_once_partial_movers). The exactly-once clause does NOT hold on the pinned code without isolation: known '
+             'findings F14 and F13 are exhibited in the model with the real scripts (C17_exactly_once_false, C17_F14_listing, '
+             'C17_F13_empty_stray) and confirmed on the real binaries on every run, identified by an explicit table of histories '
+             '(known/C17_histories.json); any other loss/duplicate/stray is a violation. Copying actions (label, cross-device move) are '
+             'outside the exactly-once theorem. Real kernel interleavings inside a system call are not explored.',
         technique='Lean 4 proof over arbitrary call results (covers all interleavings) + pause-point schedules of two real processes'),
     'C18': dict(
         text='Machine-checked: pathjoin and strlcpy accept exactly the results shorter than the buffer and then return the complete string, for '
